@@ -29,6 +29,7 @@ type opSc struct {
 	DeadlineMs   int    `json:"deadline_ms,omitempty"`    // provide: context deadline (0 = none)
 	NoAddrs      bool   `json:"no_addrs,omitempty"`       // the host advertises no address
 	Abandon      bool   `json:"abandon,omitempty"`        // channel operations: the consumer stops reading the moment it cancels (cancel and walk away)
+	PreCancel    bool   `json:"pre_cancelled,omitempty"`  // the context is already cancelled when the operation is called (the earliest cancellation instant)
 	CloseAfterMs int    `json:"close_after_ms,omitempty"` // >0: Close lands this long after the return (0: 10 minutes later, when every timeout of the operation has passed)
 	SlowReadMs   int    `json:"slow_read_ms,omitempty"`   // channel operations: the consumer pauses this long after every value it reads (the producer is then usually blocked handing over the next one)
 }
@@ -115,6 +116,10 @@ func runOp(t *testing.T, sc *opSc) opObs {
 		}
 		done := make(chan struct{})
 		obs.Started = env.sim.Now()
+		if sc.PreCancel {
+			obs.Cancelled = obs.Started + 1 // (1 ns: "cancelled", and not later than anything the operation does)
+			cancel()
+		}
 		go func() {
 			defer close(done)
 			defer func() {
@@ -390,6 +395,9 @@ func genOp(t *rapid.T) opSc {
 		sc.DeadlineMs = rapid.SampledFrom([]int{50, 3000, 9000, 15000, 120000}).Draw(t, "deadlineMs")
 	}
 	sc.NoAddrs = rapid.IntRange(0, 9).Draw(t, "noAddrs") == 0
+	if sc.CancelMs == 0 && sc.DeadlineMs == 0 && verifsim.Chance(t, "preCancel", 12) {
+		sc.PreCancel = true
+	}
 	sc.Abandon = sc.CancelMs > 0 && sc.DeadlineMs == 0 && rapid.Bool().Draw(t, "abandon")
 	sc.SlowReadMs = rapid.SampledFrom([]int{0, 0, 40, 700}).Draw(t, "slowRead")
 	if verifsim.Chance(t, "earlyClose", 40) {
@@ -403,7 +411,7 @@ func TestVerif_C03_Operations(t *testing.T) {
 		Property: "C03", Part: "operations",
 		Rule: "rapid: operation in {GetClosestPeers, FindPeer, GetValue, SearchValue (quorum 0/1/2/16), FindProviders, FindProvidersAsync (count 0/1/2/5), PutValue, Provide classic (with/without " +
 			"deadline), Provide optimistic (size estimator primed from the peer pool, the key's truly nearest peers included)} x 1-25 simulated peers with fault mixes (mixed, all failing, all silent, slow tail; " +
-			"failing/hanging write recipients; some peers deliver an answer that was 1-400 ms away when the request's context ended) x cancellation instant (never, uniform, on/next to a peer's latency); under synctest: the call must return within 1 s of virtual time after the last contacted peer " +
+			"failing/hanging write recipients; some peers deliver an answer that was 1-400 ms away when the request's context ended) x cancellation instant (never, before the call, uniform, on/next to a peer's latency); under synctest: the call must return within 1 s of virtual time after the last contacted peer " +
 			"answered/failed/timed out (or after cancellation), channels are drained to closure (or abandoned by the consumer the moment it cancels), no panic, and 10 min after the return plus Close (Close 10 min after the return, or - 40% - 1 ms-50 s after it, while work left behind may still be running) no goroutine of the bubble may be alive; " +
 			"non-trivial = a failing or silent peer, or a cancellation that landed inside the operation",
 		Gen: genOp,
